@@ -5,6 +5,7 @@ import sys
 VERIF = os.path.dirname(os.path.dirname(os.path.abspath(__file__)))
 REPO = os.environ.get("BEC2FORMAT_REPO", "/repo")
 DEPS = os.path.join(VERIF, ".deps")
+OUT = os.environ.get("VERIF_OUT", VERIF)  # where evidence/ and replay/ are written (mutant runs use a scratch dir)
 GUARD = "BALTECH_AG_BEC2FORMAT_VERIF"
 
 
